@@ -69,6 +69,8 @@ func cliFamily(prop, name string, weight int, gen func(*RNG) *CliPlan, online fu
 }
 
 func init() {
+	register(cliFamily("C07", "c07", 1, GenC07, c07Online, c07Final,
+		func(w *CliWorld, r *RunResult) { r.Nontrivial = c07Nontrivial(w) }))
 	register(cliFamily("C02", "c02-split", 1, GenC02Split, nil, func(w *CliWorld) *Violation { return c02Final(w, "C02") },
 		func(w *CliWorld, r *RunResult) { r.Nontrivial = c02Nontrivial(w) }))
 	register(cliFamily("C02", "c02", 4, GenC02, nil, func(w *CliWorld) *Violation { return c02Final(w, "C02") },
